@@ -8,6 +8,10 @@
    inv x       :=  coherent x in its pointwise form + well-formedness of the store (one row
                    per user, exactly one owner) + "attached sessions act for cached users".
 
+   Main results: c08_step_coherent_partial / c08_run_coherent_partial (the invariant along histories),
+   c08_reload_anywhere (a reload inserted anywhere in a history changes no later reply and not the store),
+   c08_ack_implies_stored_partial, c08_reject_no_change_partial.
+
    The faithful model REFUTES the full statement (seven reproduced triggers, findings/C08.md):
    the full statements are kept as Definitions, refuted with concrete witnesses, and proved
    under hypotheses that exclude exactly the triggers (safe_step); each excluded hypothesis is
